@@ -13,7 +13,7 @@ type call = {
 
 type hist = {
   gen : int; bufcap : int; errfull : bool; limiter : bool;
-  flush : int; capint : int; audit : int; maxop : int; pause : int; maxconc : int; busy_fd : int; busy_audit : int;
+  flush : int; capint : int; audit : int; maxop : int; pause : int; maxconc : int; busy_fd : int; busy_audit : int; busy_cap : int;
   watchers : (int * int * int) array;   (* maxbatch, maxattempts, maxop *)
   lines : line list;
   ended : bool;
@@ -51,9 +51,9 @@ let read path : hist =
   close_in ic;
   match !cfg with
   | g :: bufcap :: errfull :: limiter :: flush :: capint :: audit :: maxop :: pause :: maxconc :: busy ->
-      let busy_fd, busy_audit = (match busy with [a; b] -> (a, b) | _ -> (0, 0)) in
+      let busy_fd, busy_audit, busy_cap = (match busy with [a; b; d] -> (a, b, d) | [a; b] -> (a, b, 0) | _ -> (0, 0, 0)) in
       { gen = g; bufcap; errfull = errfull <> 0; limiter = limiter <> 0; flush; capint; audit; maxop;
-        pause; maxconc; busy_fd; busy_audit; watchers = Array.of_list (List.rev !ws); lines = List.rev !lines; ended = !ended; hung = !hung }
+        pause; maxconc; busy_fd; busy_audit; busy_cap; watchers = Array.of_list (List.rev !ws); lines = List.rev !lines; ended = !ended; hung = !hung }
   | _ -> failwith "cfg"
 
 let timeout_of h w =
@@ -365,7 +365,7 @@ let c16 h : string list =
       | _ -> ()) h.lines;
   if h.hung then hits := (Printf.sprintf "c16:hang gen=%d the scenario deadlocked (real-time watchdog)" h.gen) :: !hits;
   (match !last_state with
-   | Some (t, true) when h.ended && h.busy_fd = 0 && h.busy_audit = 0 ->
+   | Some (t, true) when h.ended && h.busy_fd = 0 && h.busy_audit = 0 && h.busy_cap = 0 ->
        hits := (Printf.sprintf "c16:not-terminated t=%d stop was requested on a started Batcher but there is no shutdown event by the end (a pause time later)" t) :: !hits
    | _ -> ());
   if !shut_t >= 0 then
@@ -423,7 +423,7 @@ let per_tick h ~interval ~(is_ev : string list -> bool) ~name ~need_limiter : st
     let last_t = List.fold_left (fun a ln -> max a ln.t) 0 (List.filter (fun ln -> ln.src = "D") h.lines) in
     (* a listener that keeps the loop busy delays the answer to a tick and lets ticks coalesce: the grid rules
        only apply when the scenario has no such listener (the replay against the model covers the others) *)
-    let slow = h.busy_fd > 0 || h.busy_audit > 0 in
+    let slow = h.busy_fd > 0 || h.busy_audit > 0 || h.busy_cap > 0 in
     if !start_t >= 0 then begin
       let in_pause t = List.exists (fun (a, b) -> a <= t && t <= b) !pauses in
       let k = ref 1 in
@@ -612,6 +612,7 @@ let c08_flush h : string list =
         | "L", ["resume"] -> if !pause_from >= 0 then windows := (!pause_from, ln.t) :: !windows; pause_from := -1
         | "L", ["flushdone"] -> if h.busy_fd > 0 then windows := (ln.t, ln.t + h.busy_fd) :: !windows
         | "L", (("auditskip" | "auditpass" | "auditfail") :: _) -> if h.busy_audit > 0 then windows := (ln.t, ln.t + h.busy_audit) :: !windows
+        | "L", ("giveme" :: _) -> if h.busy_cap > 0 then windows := (ln.t, ln.t + h.busy_cap) :: !windows
         | _ -> ()) arr;
     if !pause_from >= 0 then windows := (!pause_from, max_int) :: !windows;
     let last_t = if n > 0 then arr.(n - 1).t else 0 in
